@@ -15,7 +15,7 @@ from vf.catalog import numpy_calls as C
 
 MOD = "vf.checks.c06"
 CANDS = [k / 8 for k in range(-160, 161) if k != 0]
-data_seed = st.lists(st.sampled_from(CANDS), min_size=264, max_size=264, unique=True)
+data_seed = st.lists(st.sampled_from(CANDS), min_size=288, max_size=288, unique=True)
 
 
 def variant(data, kind):
@@ -34,7 +34,7 @@ def wrap_units(shared):
     from unyt import unyt_array, unyt_quantity
 
     def w(x, role):
-        u = {"A": "m", "B": "m" if shared else "s", "G": "rad", "I": "1/m"}[role]
+        u = {"A": "m", "A2": "m", "B": "m" if shared else "s", "G": "rad", "I": "1/m"}[role]
         if x.shape == ():
             return unyt_quantity(x, u)
         return unyt_array(x, u)
@@ -168,6 +168,6 @@ def run(ctx):
 
 def replay(ctx, data):
     d = data["detail"]
-    vals = d["case"] if isinstance(d, dict) and "case" in d else CANDS[:264]
+    vals = d["case"] if isinstance(d, dict) and "case" in d else CANDS[:288]
     for key, det in judge_data(vals, ctx):
         ctx.violation(key, det)
